@@ -19,10 +19,23 @@ def is_cur(e):
     return e[0] == "load" and e[1].endswith(CUR)
 
 
+def worker_fn(ctx, fl):
+    """the poll worker callback, identified as the function start_poll_synchronize_rcu hands to call_rcu (not by name)"""
+    F = FL[fl]
+    f = ctx.fn(F.lib, F.pfx + "_start_poll_synchronize_rcu")
+    for c in f.calls(F.pfx + "_call_rcu"):
+        e = ir.expr(f, c.args[1])
+        if e[0] == "fn":
+            g = ctx.mod(F.lib, "flat").fn(e[1])
+            if g is not None:
+                return g
+    raise Broken("%s: start_poll does not queue a worker through call_rcu" % fl)
+
+
 def rule_lock(ctx, rep):
     for fl in ALL:
         F = FL[fl]
-        for name in (F.pfx + "_start_poll_synchronize_rcu", F.pfx + "_poll_state_synchronize_rcu", "urcu_poll_worker_cb"):
+        for name in (F.pfx + "_start_poll_synchronize_rcu", F.pfx + "_poll_state_synchronize_rcu", worker_fn(ctx, fl).name):
             f = ctx.fn(F.lib, name)
             rep.touch(f)
             ls = lockset.compute(f)
@@ -91,8 +104,8 @@ def rule_worker(ctx, rep):
             for s in g.all_insts():
                 if s.op in ("store", "rmw", "cmpxchg") and ir.ap_str(g, s.d["ap"]).endswith(CUR):
                     who.add(g.name)
-        rep.check(who == {"urcu_poll_worker_cb"}, "C14.worker", fl + ".who-advances", "only the worker advances the current id", "current id written by %s" % sorted(who), sorted(who))
-        w = ctx.fn(F.lib, "urcu_poll_worker_cb")
+        rep.check(who == {worker_fn(ctx, fl).name}, "C14.worker", fl + ".who-advances", "only the worker advances the current id", "current id written by %s" % sorted(who), sorted(who))
+        w = worker_fn(ctx, fl)
         rep.touch(w)
         sts = [s for s in w.all_insts() if s.op == "store" and ir.ap_str(w, s.d["ap"]).endswith(CUR)]
         for s in sts:
@@ -112,13 +125,13 @@ def rule_worker(ctx, rep):
                   "re-queue test is not the signed difference latest - current >= 0 (wrap-around / off-by-one: a handle may never complete or the worker may stop early)", [cr[0].where()])
         rep.must_pass("C14.worker", fl + ".incr≺test", w, [w.entry()], cr + clr, lambda i: i in sts, include_start=True, what="the id is advanced before deciding whether to re-queue")
         fnarg = ir.expr(w, cr[0].args[1])
-        rep.check(fnarg == ("fn", "urcu_poll_worker_cb"), "C14.worker", fl + ".requeues-itself", "re-queues itself", "re-queues %s" % ir.expr_str(fnarg), [cr[0].where()])
+        rep.check(fnarg == ("fn", w.name), "C14.worker", fl + ".requeues-itself", "re-queues itself", "re-queues %s" % ir.expr_str(fnarg), [cr[0].where()])
         # address of the worker only flows to call_rcu
         uses = []
         for g in m.defined():
             for i in g.all_insts():
                 for k, a in enumerate(i.args):
-                    if a == ["f", "urcu_poll_worker_cb"]:
+                    if a == ["f", worker_fn(ctx, fl).name]:
                         uses.append((g, i, k))
         bad = [(g, i) for g, i, k in uses if not (i.op == "call" and i.callee == F.pfx + "_call_rcu" and k == 1)]
         rep.check(uses and not bad, "C14.reach", fl + ".only-via-call_rcu", "the worker runs only as a call_rcu callback (after a full grace period)", "worker invoked or stored outside call_rcu", [i.where() for g, i in bad[:2]])
